@@ -630,6 +630,9 @@ def prefix_connected(model, n):
 
 
 SYNTH_EPS = 1e-8
+# JVM options for the (many, short) TLC runs of these checks: by default every JVM starts one GC thread and one JIT
+# compiler thread per core, which costs more CPU than the model checking itself on a shared 16-core machine.
+JVM_ENV = {'JAVA_TOOL_OPTIONS': '-Xss16m -XX:ParallelGCThreads=2 -XX:TieredStopAtLevel=1 -XX:CICompilerCount=1'}
 
 
 def run_compile_case(case):
@@ -883,7 +886,7 @@ def validate_with_selftest(spec, cfg, sem, scratch, groups, prop):
     transitions, selftest report).  Raises MachineryError if a corrupted observation is accepted or misjudged."""
     from harness.common import MachineryError
     bad = corrupted_sem_cases(sem)
-    verdicts, states, trans, _ = exact.par_validate(spec, cfg, sem + [c for _, c, _ in bad], scratch, groups=groups, chunk=400)
+    verdicts, states, trans, _ = exact.par_validate(spec, cfg, sem + [c for _, c, _ in bad], scratch, groups=groups, chunk=400, env=JVM_ENV)
     real = [v for v in verdicts if v[0] < len(sem)]
     got = {v[0] - len(sem): v[2] for v in verdicts if v[0] >= len(sem)}
     report = {}
